@@ -313,12 +313,14 @@ NAMINGS = [None, None, 'y', 'sparse', ['a', 'b', 'c', 'd'], ['a', 'ab', 'b', 'ba
 INTS = [1, 2, 3, 4, 5, 7, 9]
 FRACS = [0.5, 0.25, 1.5, 0.1, 0.3, 2.75, 0.7, 3.2, 0.125, 2.0]
 HUGE = [1e8, 3e8, 2.5e8, 1e-8, 4e-8, 2.5e-8]
+# literals whose decimal TEXT invites mangling by textual rewriting ('0.0' inside '10.05', trailing '.0', leading '0.0')
+DIGITS = [10.05, 20.01, 100.025, 1.001, 0.05, 10.0, 100.0, 30.5, 0.007, 50.0, 1.0, 0.0625]
 ALLCMP = ['==', '=', '<=', '>=', '<', '>', '!=']
 
 
 def _coef(rng, style):
     pool = INTS if style == 'int' else FRACS if style == 'frac' else INTS + FRACS if style == 'mixed' \
-        else INTS + FRACS + HUGE * 2
+        else DIGITS if style == 'digits' else INTS + FRACS + HUGE * 2
     return rng.choice(pool) * rng.choice([1, -1])
 
 
@@ -431,6 +433,41 @@ def gen_program(family, seed):
         raise ValueError(family)
     spec.update(text='\n'.join(lines), kwds=kw)
     return spec
+
+
+def gen_solve_literals(family, seed):
+    """consistent systems of two or three equalities (integer coefficients, independent rows) whose right-hand sides are
+    literals with awkward decimal text -- solve() passes the text through sympy and textual clean-ups"""
+    rng = random.Random(seed)
+    nv = rng.randint(2, 4)
+    m = rng.randint(2, min(nv, 3))
+    names, kw = _naming(rng, nv)
+    while True:
+        rows = [[rng.choice([1, 1, -1, 2, -2, 3, 0]) for _ in names] for _ in range(m)]
+        cols = [[Fr(r_[j]) for r_ in rows] for j in range(nv)]
+        if all(any(r_) for r_ in rows) and _rank(cols) == m:
+            break
+    lines = ['%s = %s' % (_terms(rng, [(c, v) for c, v in zip(r_, names) if c]), _num(rng.choice(DIGITS) * rng.choice([1, 1, -1])))
+             for r_ in rows]
+    if rng.random() < .3:
+        kw['target'] = rng.sample(names, len(names))
+    return {'family': family, 'rseed': seed, 'style': 'digits', 'text': '\n'.join(lines), 'kwds': kw}
+
+
+def _rank(cols):
+    rows = [list(r) for r in zip(*cols)]
+    rk = 0
+    for c in range(len(rows[0]) if rows else 0):
+        piv = next((i for i in range(rk, len(rows)) if rows[i][c] != 0), None)
+        if piv is None:
+            continue
+        rows[rk], rows[piv] = rows[piv], rows[rk]
+        for i in range(len(rows)):
+            if i != rk and rows[i][c] != 0:
+                f = rows[i][c] / rows[rk][c]
+                rows[i] = [a - f * b for a, b in zip(rows[i], rows[rk])]
+        rk += 1
+    return rk
 
 
 def gen_matrix(family, seed):
@@ -903,14 +940,15 @@ def _work(spec):
 COUNTS = {'quick': {'simplify-linear': 24, 'simplify-opposed': 8, 'simplify-rational': 12, 'simplify-product': 4,
                     'solve': 12, 'linear_symbolic': 24, 'symbolic_bounds': 24,
                     'simplify-boundary': 48, 'simplify-shared-sign': 24, 'merge': 147 + 80,
-                    'simplify-constants': 64, 'solve-constants': 16},
+                    'simplify-constants': 64, 'solve-constants': 16, 'solve-literals': 24},
           'thorough': {'simplify-linear': 680, 'simplify-opposed': 70, 'simplify-rational': 300,
                        'simplify-product': 50, 'solve': 400, 'linear_symbolic': 400, 'symbolic_bounds': 400,
                        'simplify-boundary': 400, 'simplify-shared-sign': 200, 'merge': 147 + 1200,
-                       'simplify-constants': 600, 'solve-constants': 150}}
+                       'simplify-constants': 600, 'solve-constants': 150, 'solve-literals': 300}}
 GENS = {'linear_symbolic': gen_matrix, 'symbolic_bounds': gen_matrix, 'simplify-boundary': gen_boundary,
         'simplify-shared-sign': gen_shared_sign, 'simplify-constants': gen_constants,
-        'solve-constants': gen_constants}
+        'solve-constants': gen_constants, 'solve-literals': gen_solve_literals}
+LATE_FAMILIES = ('solve-literals',)
 
 
 def run(tier='quick', seed=0):
@@ -966,7 +1004,8 @@ def run(tier='quick', seed=0):
              'whose variables cancel are regenerated.  Sub-case: #<base family>-<preloaded-name|ordinary-names>-<exact|band>.',
         bound='%s tier: %s programs per family, seed-derived' % (tier, COUNTS[tier]))
     specs = []
-    order = sorted(f for f in COUNTS[tier] if f not in NEW_FAMILIES + CONST_FAMILIES) + list(NEW_FAMILIES + CONST_FAMILIES)   # earlier families keep their seeds
+    order = sorted(f for f in COUNTS[tier] if f not in NEW_FAMILIES + CONST_FAMILIES + LATE_FAMILIES) + \
+        list(NEW_FAMILIES + CONST_FAMILIES + LATE_FAMILIES)   # earlier families keep their seeds
     for fi, fam in enumerate(order):
         n, gen = COUNTS[tier][fam], GENS.get(fam, gen_program)
         if fam == 'merge':
